@@ -1,6 +1,6 @@
 SPECIFICATION Spec
 CONSTANTS
-  MaxN = 40
+  MaxN = 24
 INVARIANT ReadInFile
 INVARIANT FitsInBlock
 INVARIANT WholeDecim
